@@ -174,6 +174,7 @@ func exec(i in) vh.Out {
 
 var vocab9 = []string{"", "latest", "stable", "candidate", "beta", "edge", "foo", "1.0", "hotfix"}
 var vocab6 = []string{"", "latest", "stable", "edge", "foo", "1.0"}
+var vocab5 = []string{"", "latest", "stable", "edge", "foo"}
 
 // all strings made of 1..maxComps vocabulary words joined by "/"
 func enum(vocab []string, maxComps int) []string {
@@ -248,8 +249,8 @@ func gen(r *vh.Rand, tier string, n int) []in {
 		}
 	}
 	// 3. Resolve / ResolvePinned on all pairs
-	curs, news, tracks := enum(vocab6, 3), enum(vocab6, 2), enum(vocab6, 2)
-	pnews := enum(vocab6, 3)
+	curs, news, tracks := enum(vocab5, 3), enum(vocab6, 2), enum(vocab5, 2)
+	pnews := enum(vocab5, 3)
 	if thorough {
 		curs, news = enum(vocab9, 3), enum(vocab9, 2)
 		tracks, pnews = enum(vocab9, 2), enum(vocab9, 3)
